@@ -456,6 +456,8 @@ type FuncContract struct {
 	Forbids   []string  // callees the function must never call
 	HasFSEffects bool   // fs_effects clause present
 	FSEffects []string  // the mutating os / io/ioutil calls the function may make directly
+	HasFSAccess bool    // fs_access clause present
+	FSAccess  []string  // the path-taking os / io/ioutil / filepath calls (reads included) it may make directly
 	Callbacks []string  // func-typed parameters declared `callback p`
 	CbInvs    []*Clause // closure passed as a callback: invariants kept by every call
 	Asserts   []*Clause // "assert at call Callee#k: expr"
@@ -522,7 +524,7 @@ var clauseKeywords = map[string]bool{
 	"func": true, "on_lock": true, "extern": true, "requires": true, "requires_locked": true, "ensures": true, "modifies": true, "nopanic": true,
 	"loop": true, "specfunc": true, "ghost": true, "ghostsum": true, "ghost_set": true, "lockinv": true, "axiom": true, "trusted": true,
 	"pure": true, "inline": true, "held": true, "acquires": true, "assert": true, "package": true, "invariant": true, "lemma": true, "lemma_at": true, "unknown_calls_modify": true,
-	"assume_after": true, "callback": true, "closed_type": true, "fs_effects": true, "forbids": true, "opaque_mul": true, "rules_only": true,
+	"assume_after": true, "callback": true, "closed_type": true, "fs_effects": true, "fs_access": true, "forbids": true, "opaque_mul": true, "rules_only": true,
 }
 
 // splitLabel splits "label: expr" (label is a bare identifier followed by ':' but not '::').
@@ -757,6 +759,20 @@ func (cs *ContractSet) parseContractText(file, pkgPath string, lines []string, l
 				part = strings.TrimSpace(part)
 				if part != "" && part != "none" {
 					cur.FSEffects = append(cur.FSEffects, part)
+				}
+			}
+		case "fs_access":
+			// fs_access os.Stat, ...: like fs_effects, but for every call of package os, io/ioutil
+			// or path/filepath that takes a path and goes to the file system - reads included.
+			// "fs_access none": the function reaches the file system only through its callees.
+			if cur == nil {
+				return fmt.Errorf("%s:%d: fs_access outside func", file, it.line)
+			}
+			cur.HasFSAccess = true
+			for _, part := range splitTop(rest, ',') {
+				part = strings.TrimSpace(part)
+				if part != "" && part != "none" {
+					cur.FSAccess = append(cur.FSAccess, part)
 				}
 			}
 		case "unknown_calls_modify":
